@@ -64,6 +64,7 @@ def run_c03(ctx):
     l2.c03_environment(ctx, res, cp["structured"])
     l2.c03_objects(ctx, res)
     l2.c03_escape_output(ctx, res)
+    l2.c03_reg_table(ctx, res)
     res.require(["l2:run"], "L2")
     return res
 
@@ -142,6 +143,8 @@ def run_c19(ctx):
     for h in range(1 if not ctx.thorough() else 10):
         l2.watch_history(ctx, res, cp, "C19", 100 + h)
     l2.watch_history(ctx, res, cp, "C19", 150, symlinked=True)
+    # the option given to `watch` holds for every re-check, as it does for a fresh check
+    l2.watch_history(ctx, res, cp, "C19", 151, stack=True)
     res.require(["watch_through_a_symlink_pointed_elsewhere"], "L2")
     return res
 
